@@ -134,12 +134,12 @@ def run(ctx, pid, phases, title, extra_tb, rule):
             viol.append(dict(kind="hash-model-mismatch", **diff))
         if tr["skel"] is not None:
             skip = sorted(tr["known"])
-            budget = 1_500_000 if thorough else 600_000
+            budget = 700_000 if thorough else 600_000
             runs = [("q", ctx.seed, "quick", dict())]
             if not thorough:
                 runs.append(("q2", ctx.seed + 7919, "quick", dict(threads=3, nops=120)))
             else:
-                runs += [("t%d" % i, ctx.seed + 101 * i, "thorough", dict()) for i in range(1, 9)]
+                runs += [("t%d" % i, ctx.seed + 101 * i, "thorough", dict()) for i in range(1, 6)]
                 runs += [("race", ctx.seed + 13, "thorough", dict(race=True)),
                          ("tcp", ctx.seed + 17, "quick", dict(tcp=True)),
                          ("many", ctx.seed + 19, "quick", dict(threads=16, nops=40))]
